@@ -3,7 +3,7 @@ import vlib, trees, gens, laylib
 from vlib import enc
 from checklib import Scenario
 
-RULE = ("trees of C01 x callback policies (accept all; reject only the main file; only the k-th drop-in; only a drop-in that "
+RULE = ("trees of C01 (a fifth of them with one malformed file) x callback policies (accept all; reject only the main file; only the k-th drop-in; only a drop-in that "
         "is masked by a later one; several) x the four callback entry points (readFile, readDirs, readDirsHistory, readConfig "
         "WithCallback); observations: return code, out-pointer state, the exact sequence of paths the callback was asked "
         "about with its verdicts, the sequence of files really opened (fopen wrapped), the callback data pointer, dump of "
@@ -15,6 +15,9 @@ def gen(rng, tier):
     out = []
     for _ in range(n):
         st = laylib.setup(rng, mode=rng.choice([0, 0, 1, 2, 3]), popts=True, relative=rng.random() < 0.2)
+        if rng.random() < 0.2:
+            # one file is malformed as well: a file the callback rejects must not even be parsed
+            st["cmds"] = laylib.inject_bad_line(rng, st["cmds"])
         files = laylib.files_of(st["cmds"])
         r = rng.random()
         if r < 0.25 or not files: pol = "cb reject"
